@@ -586,3 +586,50 @@ def rule_maxref_registered(ctx):
     else:
         ctx.holds("MAXREG", "MAXREG:HTPcreate", f.where(), "every non-failing path leaves maxref >= the registered reference", nontrivial=True)
     return 1
+
+
+class _SeekOrigin(PathAnalysis):
+    def __init__(self, prog):
+        super().__init__(prog)
+        self.bad = None
+        self.adjusts = False
+
+    def init_user(self, func):
+        return False
+
+    def on_stmt(self, func, bid, idx, stmt, env, user):
+        for c in calls_in(stmt["e"]):
+            args = [strip(a) for a in c[3]]
+            if user and any(kind(a) == "var" and a[1] == "offset" for a in args) and any(kind(a) == "var" and a[1] == "origin" for a in args):
+                self.bad = c
+        for x in walk(stmt["e"], True):
+            if x[0] == "asg" and x[1] == "+=" and kind(strip(x[2])) == "var" and strip(x[2])[1] == "offset":
+                self.adjusts = True
+                user = True
+        return user
+
+
+def rule_seek_origin(ctx):
+    """SEEKORIGIN (C05, C01): a seek routine that converts (offset, origin) into an absolute offset (`offset += posn` under
+    `origin == DF_CURRENT`, `offset += length` under DF_END) must not, after that adjustment, hand the same `origin` on together
+    with the adjusted offset: whoever receives both applies the origin a second time."""
+    prog = ctx.prog
+    n = 0
+    for f in prog.lib_funcs():
+        pn = [p[0] for p in f.params]
+        if "offset" not in pn or "origin" not in pn:
+            continue
+        a = _SeekOrigin(prog)
+        a.fails = fail_values(f, prog)
+        a.run(f)
+        if not a.adjusts:
+            continue
+        n += 1
+        key = "SEEKORIGIN:%s" % f.name
+        if a.bad is not None:
+            from .flow import call_name
+            ctx.violated("SEEKORIGIN", key, f.where(a.bad[5]), "%s adjusts `offset` by the origin and afterwards passes both `offset` and `origin` to %s(): the origin is applied twice" % (f.name, call_name(a.bad)))
+        else:
+            ctx.holds("SEEKORIGIN", key, f.where(), "the adjusted offset is never forwarded together with the original origin", nontrivial=True)
+    ctx.floor("SEEKORIGIN", 3, n, "(seek routines that make the offset absolute)")
+    return n
